@@ -1,6 +1,7 @@
 import Ark.Proofs.ArchIndex
 import Ark.Proofs.Rejects
 import Ark.Proofs.GenBridge.BookArchetype
+import Ark.Props.C04World
 
 namespace Ark.Props.C04
 open Ark
@@ -58,5 +59,77 @@ theorem src_hasRelations : type_of% @Ark.GenBridge.Book.hasRelations_eq := @Ark.
 theorem src_freeTable : type_of% @Ark.GenBridge.Book.freeTable_eq := @Ark.GenBridge.Book.freeTable_eq
 /-- `archetype.removeTableRelations` as in the source = the model's -/
 theorem src_removeTableRelations : type_of% @Ark.GenBridge.Book.removeTableRelations_eq := @Ark.GenBridge.Book.removeTableRelations_eq
+
+
+/-! ### World level (Props/C04World): targets are zero or alive; removing a target detaches, never corrupts -/
+
+/-- the world-level invariant `TInv` (structure ∧ relation index ∧ targets zero-or-alive ∧ relation lists exact ∧ target flags ∧ free tables empty ∧ index/pool link) holds of the initial world -/
+theorem world_init_invariant : type_of% @Ark.Props.C04World.init_invariant := @Ark.Props.C04World.init_invariant
+
+/-- **C04**: under the invariant, every relation target read through the entity index is the zero entity or alive -/
+theorem world_target_zero_or_alive : type_of% @Ark.Props.C04World.target_zero_or_alive := @Ark.Props.C04World.target_zero_or_alive
+
+/-- an accepted `NewEntity(ids, rels)` (any path): invariant kept, the new entity's targets are the ones given, nobody else changes -/
+theorem world_newEntity_assigns_targets : type_of% @Ark.Props.C04World.newEntity_assigns_targets := @Ark.Props.C04World.newEntity_assigns_targets
+
+/-- a dead target is rejected with the world unchanged (typed paths) -/
+theorem world_newEntity_dead_target_rejected : type_of% @Ark.Props.C04World.newEntity_dead_target_rejected := @Ark.Props.C04World.newEntity_dead_target_rejected
+
+/-- a dead target is never accepted (all paths) -/
+theorem world_newEntity_dead_target_not_accepted : type_of% @Ark.Props.C04World.newEntity_dead_target_not_accepted := @Ark.Props.C04World.newEntity_dead_target_not_accepted
+
+/-- `Add` with relations: targets assigned, old targets/components/values kept, nobody else changes -/
+theorem world_add_assigns_targets : type_of% @Ark.Props.C04World.add_assigns_targets := @Ark.Props.C04World.add_assigns_targets
+
+/-- `Add` with a dead target is rejected -/
+theorem world_add_dead_target_rejected : type_of% @Ark.Props.C04World.add_dead_target_rejected := @Ark.Props.C04World.add_dead_target_rejected
+
+/-- `SetRelations`: named targets assigned, unnamed targets, components and values kept, nobody else changes -/
+theorem world_setRelations_assigns_targets : type_of% @Ark.Props.C04World.setRelations_assigns_targets := @Ark.Props.C04World.setRelations_assigns_targets
+
+/-- the same through any access path -/
+theorem world_opSetRelations_assigns_targets : type_of% @Ark.Props.C04World.opSetRelations_assigns_targets := @Ark.Props.C04World.opSetRelations_assigns_targets
+
+/-- a `SetRelations` whose targets are zero or alive never fails -/
+theorem world_setRelations_never_fails : type_of% @Ark.Props.C04World.setRelations_never_fails := @Ark.Props.C04World.setRelations_never_fails
+
+/-- `SetRelations` with a dead target is rejected with the world unchanged (typed paths) -/
+theorem world_setRelations_dead_target_rejected : type_of% @Ark.Props.C04World.setRelations_dead_target_rejected := @Ark.Props.C04World.setRelations_dead_target_rejected
+
+/-- … and never accepted on any path -/
+theorem world_setRelations_dead_target_not_accepted : type_of% @Ark.Props.C04World.setRelations_dead_target_not_accepted := @Ark.Props.C04World.setRelations_dead_target_not_accepted
+
+/-- **C04**: `RemoveEntity(g)` never fails; afterwards `g` is dead, every other entity keeps its components and values, and its targets are unchanged except that a target `g` reads zero -/
+theorem world_removeEntity_zeroes_target : type_of% @Ark.Props.C04World.removeEntity_zeroes_target := @Ark.Props.C04World.removeEntity_zeroes_target
+
+/-- full post-condition of `RemoveEntity` on a world with relations (invariant re-established with the ID pushed on the free list) -/
+theorem world_removeEntity_post : type_of% @Ark.Props.C04World.removeEntity_post := @Ark.Props.C04World.removeEntity_post
+
+/-- `cleanupArchetypes` never panics, restores the full relation-index invariant, and leaves no active table targeting the removed entity -/
+theorem world_cleanup_total : type_of% @Ark.Props.C04World.cleanup_total := @Ark.Props.C04World.cleanup_total
+
+/-- one table of one archetype in the cleanup -/
+theorem world_cleanup_step : type_of% @Ark.Props.C04World.cleanup_step := @Ark.Props.C04World.cleanup_step
+
+/-- table creation (fresh and recycled) while one target is pending removal -/
+theorem world_cleanup_createTable : type_of% @Ark.Props.C04World.cleanup_createTable := @Ark.Props.C04World.cleanup_createTable
+
+/-- `Good` (invariant for some free list, unlocked, no observers) holds initially -/
+theorem world_good_initial : type_of% @Ark.Props.C04World.good_initial := @Ark.Props.C04World.good_initial
+
+/-- … and is preserved by component registration -/
+theorem world_good_register : type_of% @Ark.Props.C04World.good_register := @Ark.Props.C04World.good_register
+
+/-- … by `NewEntity` with relations -/
+theorem world_good_newEntity : type_of% @Ark.Props.C04World.good_newEntity := @Ark.Props.C04World.good_newEntity
+
+/-- … by `RemoveEntity` -/
+theorem world_good_removeEntity : type_of% @Ark.Props.C04World.good_removeEntity := @Ark.Props.C04World.good_removeEntity
+
+/-- … by `SetRelations` -/
+theorem world_good_setRelations : type_of% @Ark.Props.C04World.good_setRelations := @Ark.Props.C04World.good_setRelations
+
+/-- … by `Add` with relations -/
+theorem world_good_add : type_of% @Ark.Props.C04World.good_add := @Ark.Props.C04World.good_add
 
 end Ark.Props.C04
